@@ -18,6 +18,8 @@ pub enum Fam {
     Sp { name: &'static str, m: usize },
     /// knapsack n items, weights/profits in {1,2,3}, capacity 0..=6 (as a table model with max merge)
     Kp { name: &'static str, n: usize },
+    /// knapsack n items, weights/profits in {1,3}, capacity 0..=6: complete families for larger n
+    Kpb { name: &'static str, n: usize },
     /// knapsack with profits in {0,1} (many value ties) whose second merge operator returns the FULL capacity: the merged
     /// state frequently equals an exact kept node of the layer (recycling)
     Kpz { name: &'static str, n: usize },
@@ -66,7 +68,7 @@ const NEIGH_C: [i8; 5] = [-1, 0, 1, 2, 3];
 
 impl Fam {
     pub fn name(&self) -> &'static str {
-        match self { Fam::Tm { name, .. } | Fam::TmNeigh { name, .. } | Fam::TmIrr { name, .. } | Fam::Sp { name, .. } | Fam::Kp { name, .. } | Fam::Kpz { name, .. } => name }
+        match self { Fam::Tm { name, .. } | Fam::TmNeigh { name, .. } | Fam::TmIrr { name, .. } | Fam::Sp { name, .. } | Fam::Kp { name, .. } | Fam::Kpz { name, .. } | Fam::Kpb { name, .. } => name }
     }
     fn tm_entries(n: usize, s: usize, nd: usize) -> Vec<(usize, usize, usize)> {
         let mut e = vec![];
@@ -97,6 +99,7 @@ impl Fam {
             Fam::Sp { m, .. } => (1u64 << (m * (m.max(&1) - 1) / 2)) * 3u64.pow(*m as u32),
             Fam::Kp { n, .. } => 9u64.pow(*n as u32) * 7,
             Fam::Kpz { n, .. } => 6u64.pow(*n as u32) * 7,
+            Fam::Kpb { n, .. } => 4u64.pow(*n as u32) * 7,
         }
     }
     fn dims(&self) -> (usize, usize) {
@@ -223,6 +226,26 @@ impl Fam {
                 var.bonus = false;
                 Tm::new(*n, s, 2, tr, 0, var, name).with_mode(mode).with_root(cap)
             }
+            Fam::Kpb { name, n } => {
+                let mut r = idx;
+                let cap = (r % 7) as usize;
+                r /= 7;
+                let s = cap + 1;
+                let mut tr = vec![vec![vec![None; 2]; s]; *n];
+                for l in 0..*n {
+                    let w = [1usize, 3][(r % 2) as usize]; r /= 2;
+                    let p = [1i8, 3][(r % 2) as usize]; r /= 2;
+                    for c in 0..s {
+                        tr[l][c][0] = Some((c as u8, 0));
+                        if w <= c { tr[l][c][1] = Some(((c - w) as u8, p)); }
+                    }
+                }
+                let mut var = var;
+                if var.dom != Dom::Off { var.dom = Dom::Coord; }
+                let mode = if var.bonus { MergeMode::MaxIdxUp } else { MergeMode::MaxIdx };
+                var.bonus = false;
+                Tm::new(*n, s, 2, tr, 0, var, name).with_mode(mode).with_root(cap)
+            }
             Fam::Kpz { name, n } => {
                 let mut r = idx;
                 let cap = (r % 7) as usize;
@@ -315,6 +338,9 @@ pub fn all_families() -> Vec<Fam> {
         Fam::Kp { name: "KP-3", n: 3 },
         Fam::Kp { name: "KP-4", n: 4 },
         Fam::Kp { name: "KP-5", n: 5 },
+        Fam::Kp { name: "KP-6", n: 6 },
+        Fam::Kpb { name: "KPB-6", n: 6 },
+        Fam::Kpb { name: "KPB-7", n: 7 },
         Fam::Kpz { name: "KPZ-3", n: 3 },
         Fam::Kpz { name: "KPZ-4", n: 4 },
     ]
